@@ -15,6 +15,7 @@ import (
 	"sort"
 	"strings"
 	"sync"
+	"sync/atomic"
 	"time"
 
 	corev1 "k8s.io/api/core/v1"
@@ -72,7 +73,7 @@ type ipamPod struct {
 	Container string
 	RepV4     string
 	RepV6     string
-	GoneAt    int // reconcile counter when (gone && DelDone && Flushed) became true
+	GoneAt    int  // reconcile counter when (gone && DelDone && Flushed) became true
 	AddFailed bool // the latest ADD failed (the agent rolled it back)
 	Restarts  int  // sandboxes of this UID that were torn down and replaced while the pod stayed
 }
@@ -570,6 +571,7 @@ type ipamHist struct {
 	apiAt     map[string]int // kind -> position (1-based) of the one write that fails
 	apiAtKind string         // conflict | lost
 	apiSeen   map[string]int
+	aging     atomic.Bool
 }
 
 func genIpamCfg(rng *rand.Rand) ipamCfg {
@@ -678,6 +680,9 @@ func newIpamHist(c *ctxT, prop string, hid int, cfg ipamCfg, seed int64) *ipamHi
 				kind = "runtime"
 			default:
 				return nil
+			}
+			if rt, ok := obj.(*v1beta1.NodeRuntime); ok {
+				h.spreadReports(rt)
 			}
 			h.apiMu.Lock()
 			defer h.apiMu.Unlock()
@@ -844,7 +849,9 @@ func (h *ipamHist) afterInitial() {
 	}
 }
 
-func (h *ipamHist) newPod(i int, rdma bool) *ipamPod { return h.newPodNamed(fmt.Sprintf("p%d", i), rdma) }
+func (h *ipamHist) newPod(i int, rdma bool) *ipamPod {
+	return h.newPodNamed(fmt.Sprintf("p%d", i), rdma)
+}
 
 // newPodNamed: also used to recreate a pod under the name of one that is gone (StatefulSet style).
 func (h *ipamHist) newPodNamed(name string, rdma bool) *ipamPod {
@@ -1115,6 +1122,46 @@ func (m *ipamMon) note(f string, a ...any) {
 	m.mu.Unlock()
 }
 
+// spreadReports: histories run in milliseconds, report timestamps have one-second resolution, and
+// utils.RuntimeFinalStatus picks among equal timestamps in map order. Two reports about one pod that are written
+// in the same second would make "the latest report" a coin toss per reconcile; in the product they are seconds
+// apart. A status whose timestamp is new in this write is moved one second past the pod's other reports when it
+// does not already follow them.
+func (h *ipamHist) spreadReports(rt *v1beta1.NodeRuntime) {
+	if h.aging.Load() {
+		return // the harness's own shift of every timestamp keeps their order
+	}
+	old := &v1beta1.NodeRuntime{}
+	if err := h.cl.Get(context.Background(), client.ObjectKey{Name: rt.Name}, old); err != nil {
+		old = &v1beta1.NodeRuntime{}
+	}
+	for uid, p := range rt.Status.Pods {
+		if p == nil {
+			continue
+		}
+		var prev map[v1beta1.CNIStatus]*v1beta1.CNIStatusInfo
+		if op := old.Status.Pods[uid]; op != nil {
+			prev = op.Status
+		}
+		for k, st := range p.Status {
+			if st == nil {
+				continue
+			}
+			if o := prev[k]; o != nil && o.LastUpdateTime.Unix() == st.LastUpdateTime.Unix() {
+				continue // not written now
+			}
+			for k2, other := range p.Status {
+				if k2 == k || other == nil {
+					continue
+				}
+				if !other.LastUpdateTime.Time.Truncate(time.Second).Before(st.LastUpdateTime.Time.Truncate(time.Second)) {
+					st.LastUpdateTime = metav1.NewTime(other.LastUpdateTime.Time.Truncate(time.Second).Add(time.Second))
+				}
+			}
+		}
+	}
+}
+
 // agentGC: the agent's periodic pod garbage collection (gcPods + cleanRuntimeNode); before it, time passes:
 // every NodeRuntime timestamp moves one minute into the past (order preserved), which is how the harness
 // models the 30 s age the agent demands of an 'initial' record without touching a clock.
@@ -1128,7 +1175,9 @@ func (h *ipamHist) agentGC(podGetFaults int) {
 				}
 			}
 		}
+		h.aging.Store(true)
 		_ = h.cl.Status().Update(context.Background(), rt)
+		h.aging.Store(false)
 	}
 	h.apiMu.Lock()
 	h.apiFlt["podget"] = podGetFaults
